@@ -17,6 +17,7 @@ type vC13World struct {
 	r    *Runtime
 	o    *objectGoSlice
 	data *[]interface{}
+	hw   int // high-water mark of len(*data): slots at or above it were never handed to the wrapper and may be stale
 }
 
 // symbolic-mode stand-in for Runtime.ToValue on the element kinds used here (identity on Values,
@@ -41,13 +42,17 @@ func vC13NewSlice() *vC13World {
 	vAssume(c == n || c == vBound("C") || vBound("allcaps") != 0)
 	n = vConcretize(n)
 	c = vConcretize(c)
-	s := make([]interface{}, n, c)
+	// the spare capacity holds stale non-nil elements (what a Go-side truncation s = s[:n] leaves behind):
+	// a script-side grow within the capacity must not expose them (seed C13_m3)
+	s := make([]interface{}, c, c)
 	for i := range s {
 		s[i] = int64(100 + i)
 	}
+	s = s[:n]
 	d := new([]interface{})
 	*d = s
 	w.data = d
+	w.hw = n
 	if vSymbolic() {
 		obj := &Object{runtime: w.r}
 		o := &objectGoSlice{baseObject: baseObject{val: obj}, data: d, origIsPtr: true}
@@ -99,9 +104,12 @@ func (w *vC13World) check(tag string) {
 	full := s[:cap(s)]
 	tailNil := true
 	for i := len(s); i < len(full); i++ {
-		if full[i] != nil {
+		if i < w.hw && full[i] != nil {
 			tailNil = false
 		}
+	}
+	if len(s) > w.hw {
+		w.hw = len(s)
 	}
 	vAssert(tag+":slots-between-len-and-cap-are-nil", tailNil)
 	// script reads: every index in range sees the Go element; any index out of range is absent
